@@ -66,6 +66,14 @@ func abstractPaths(toks []string, arity map[string]int, closeOp string, withH bo
 	var out []string
 	ph := -1 // index of the placeholder of the current run
 	for _, t := range toks {
+		if t == "cm" && withH { // PDF: the six operands of cm are geometry: abstracted to M
+			if len(out) < 6 {
+				return nil, fmt.Errorf("operand underflow at cm")
+			}
+			out = append(out[:len(out)-6], "M", "cm")
+			ph = -1
+			continue
+		}
 		if n, ok := arity[t]; ok {
 			if len(out) < n {
 				return nil, fmt.Errorf("operand underflow at %s", t)
